@@ -172,10 +172,15 @@ class C15:
         lit = None
         if name in ("tsp", "cvrp", "sdvrp", "op", "pctsp") and rc.random() < 0.2:
             # part C instead of part B: the POMO / SymNCO modules' own test-phase augmentation + best-of-k
-            mdl = rc.choice(["pomo", "pomo", "symnco"])
-            fn = rc.choice(["symmetric", "dihedral8"]) if mdl == "pomo" else "symmetric"
+            mdl = rc.choice(["pomo", "pomo", "symnco"] + (["polynet", "polynet"] if name in ("tsp", "cvrp") else []))
+            fn = rc.choice(["symmetric", "dihedral8"]) if mdl in ("pomo", "polynet") else "symmetric"
             lit = {"model": mdl, "fn": fn, "num_augment": 8 if fn == "dihedral8" else rc.choice([2, 3, 4]),
                    "num_starts": rc.randint(2, max(2, min(n, 4))), "seed": rc.randrange(1 << 30)}
+            if mdl == "polynet":
+                # PolyNet: k strategy vectors per instance instead of start nodes; augmentation is optional
+                lit["num_starts"] = rc.choice([2, 3, 4])
+                if rc.random() < 0.4:
+                    lit["num_augment"], lit["fn"] = 1, "symmetric"
             rows = rows[: min(len(rows), 4)]
         search = None
         if lit is None and name in SEARCH_ENVS and 5 <= n <= 7 and rc.random() < 0.65:
@@ -286,6 +291,15 @@ def check_lit_test_step(run, env, cfg, rows, lit, spec):
 
             model = POMO(env, policy=policy, num_augment=A, augment_fn=lit["fn"], num_starts=S,
                          batch_size=B, train_data_size=B, val_data_size=B, test_data_size=B)
+        elif lit["model"] == "polynet":
+            from rl4co.models.zoo.polynet import PolyNet
+            from rl4co.models.zoo.polynet.policy import PolyNetPolicy
+
+            torch.manual_seed(spec["seed"])
+            policy = PolyNetPolicy(k=S, env_name=name, embed_dim=32, num_encoder_layers=1, num_heads=2,
+                                   feedforward_hidden=64, normalization="instance").eval()
+            model = PolyNet(env, policy=policy, k=S, val_num_solutions=S, num_augment=A, augment_fn=lit["fn"],
+                            batch_size=B, train_data_size=B, val_data_size=B, test_data_size=B)
         else:
             from rl4co.models.zoo.symnco import SymNCO
 
